@@ -110,8 +110,26 @@ def _md(d):
     return dict(d) if d else None
 
 
+class BuildError(Exception):
+    """the library raised while a content was being built through valid public calls (a finding about the library, not about
+    the harness): carries the content and the route so that the E4 driver can report it as a violation"""
+
+    def __init__(self, desc, detour, exc):
+        Exception.__init__(self, "building %r (detour=%r) raised %s: %s" % (show(desc), detour, type(exc).__name__, exc))
+        self.desc, self.detour, self.exc = desc, detour, exc
+
+
 def build(desc, detour=False, extra_node="zz9", relabel=None):
     """materialise a content on the real class; detour=True takes the scenic route"""
+    try:
+        return _build(desc, detour, extra_node, relabel)
+    except (AssertionError, KeyboardInterrupt, MemoryError):
+        raise
+    except Exception as e:
+        raise BuildError(desc, detour, e)
+
+
+def _build(desc, detour=False, extra_node="zz9", relabel=None):
     import hypergraphx as hx
 
     R = (lambda n: relabel[n]) if relabel else (lambda n: n)
@@ -129,14 +147,20 @@ def build(desc, detour=False, extra_node="zz9", relabel=None):
         h.add_node(xn)
         if nodes:
             a = R(nodes[0])
+            b = R(nodes[-1])
+            # two extra records touch the extra node (its removal has to take out BOTH), the second one also touches a real node
             if k == "H":
                 h.add_edge((a, xn))
+                h.add_edge((xn, b, a) if a != b else (xn,))
             elif k == "D":
                 h.add_edge(((a,), (xn,)))
+                h.add_edge(((xn,), (b,)))
             elif k == "T":
                 h.add_edge((a, xn), 7)
+                h.add_edge((b, xn), 8)
             else:
                 h.add_edge((a, xn), "zz")
+                h.add_edge((b, xn, a) if a != b else (xn,), "zz")
     shrink = None
     if detour == "shrink" and k != "D" and (k != "M" or desc["edges"]):
         # an extra node that lives only in a singleton record of its own is inserted first and taken out at the end
